@@ -3,7 +3,7 @@
    swap rule of Gen/JwSwapRule.v and the state-side sign of _update_mps.   No proofs in this file. *)
 From Coq Require Import ZArith List Bool String Arith.
 Import ListNotations.
-From RV Require Import Gen.SimplifyOp Gen.JwSwapRule.
+From RV Require Import Gen.SimplifyOp Gen.JwSwapRule Gen.QcLoops.
 Local Open Scope Z_scope.
 
 (* ------------------------------------------------------------------ 2x2 integer matrices *)
@@ -215,3 +215,48 @@ Definition qc_single_pairs : list (list string * list string) :=
   list_prod (map (fun s => [s]) qc_alphabet) (map (fun s => [s]) qc_alphabet).
 Definition qc_counterexample : option (list string * list string) :=
   find (fun p => negb (pair_ok (fst p) (snd p))) qc_single_pairs.
+
+(* ------------------------------------------------------------------ term lists of qc_model: flat and stacked *)
+Inductive tidx := T1 (p q : nat) | T2 (p q r s : nat).
+Definition tfirst (t : tidx) : nat := match t with T1 p _ => p | T2 p _ _ _ => p end.
+Definition t_ops (t : tidx) : list lop := match t with T1 p q => one_body_ops p q | T2 p q r s => two_body_ops p q r s end.
+Definition quad := (nat * nat * nat * nat)%type.
+Definition qfirst (x : quad) : nat := let '(p, _, _, _) := x in p.
+Definition mkT1 (x : nat * nat) : tidx := T1 (fst x) (snd x).
+Definition mkT2 (x : quad) : tidx := let '(p, q, r, s) := x in T2 p q r s.
+(* S1 = np.argwhere(h1e != 0), S2 = np.argwhere(h2e != 0): arbitrary support patterns *)
+Definition flat_terms (S1 : list (nat * nat)) (S2 : list quad) : list tidx := map mkT1 S1 ++ map mkT2 S2.
+Definition rows1 (S1 : list (nat * nat)) (p : nat) := filter (fun x => Nat.eqb (fst x) p) S1.       (* pairs1[pairs1[:,0] == p] *)
+Definition rows2 (S2 : list quad) (p : nat) := filter (fun x => Nat.eqb (qfirst x) p) S2.
+(* the sub-list the stacked branch builds for p; None = skipped by a `continue` *)
+Definition stacked_group (S1 : list (nat * nat)) (S2 : list quad) (p : nat) : option (list tidx) :=
+  let nq := List.length (rows1 S1 p) in let nqrs := List.length (rows2 S2 p) in
+  if stacked_group_emitted nq nqrs then
+    Some ((if stacked_one_guard nq nqrs then map mkT1 (rows1 S1 p) else []) ++
+          (if stacked_two_guard nq nqrs then map mkT2 (rows2 S2 p) else []))
+  else None.
+Definition stacked_terms_over (ps : list nat) (S1 : list (nat * nat)) (S2 : list quad) : list tidx :=
+  flat_map (fun p => match stacked_group S1 S2 p with Some g => g | None => [] end) ps.
+Definition stacked_visits (norbs : nat) (S1 : list (nat * nat)) (S2 : list quad) : list nat :=
+  stacked_domain norbs (map fst S1) (map qfirst S2).
+
+(* ------------------------------------------------------------------ int_to_h on abstract integrals *)
+Definition h_t := nat -> nat -> Z.
+Definition eri_t := nat -> nat -> nat -> nat -> Z.
+Definition sh_val (h : h_t) (q s : nat) : Z :=
+  if sh_pred q s then match sh_src q s with [a; b] => h a b | _ => 0 end else 0.
+Definition seri_val (eri : eri_t) (p q r s : nat) : Z :=
+  if seri_pred p q r s then match seri_src p q r s with [a; b; c; d] => eri a b c d | _ => 0 end else 0.
+Definition perm4 (perm : list nat) (f : eri_t) (p q r s : nat) : Z :=
+  let v := [p; q; r; s] in f (perm_get perm v 0) (perm_get perm v 1) (perm_get perm v 2) (perm_get perm v 3).
+Definition aseri_val (eri : eri_t) (p q r s : nat) : Z :=
+  if aseri_in_range p q r s then perm4 aseri_plus (seri_val eri) p q r s - perm4 aseri_minus (seri_val eri) p q r s else 0.
+Definition h_symmetric (h : h_t) : Prop := forall a b, h a b = h b a.
+(* (ab|cd) = (ba|cd) = (ab|dc) = (cd|ab) *)
+Definition eri_symmetric (eri : eri_t) : Prop :=
+  (forall a b c d, eri a b c d = eri b a c d) /\ (forall a b c d, eri a b c d = eri a b d c) /\ (forall a b c d, eri a b c d = eri c d a b).
+(* adjoint on index classes and on operator lists *)
+Definition tadj (t : tidx) : tidx := match t with T1 p q => T1 q p | T2 p q r s => T2 r s p q end.
+Definition tcoef (h : h_t) (eri : eri_t) (t : tidx) : Z := match t with T1 p q => sh_val h p q | T2 p q r s => aseri_val eri p q r s end.
+Definition lop_dag (o : lop) : lop := (negb (fst o), snd o).
+Definition ops_adj (ops : list lop) : list lop := rev (map lop_dag ops).
